@@ -769,7 +769,7 @@ package profile
 
 // FilterSamplesByName, location pass: a location is classified focused/ignored by what it matched BEFORE hide/show
 // rewrote its lines, and it is hidden only because hide matched it or because show is given.
-//@ func Profile.FilterSamplesByName
+//@ func Profile.FilterSamplesByName freshappend=yes
 //@   requires p != nil
 //@   requires forall i int :: 0 <= i && i < len(p.Location) ==> p.Location[i] != nil
 //@   requires forall i int, j int :: 0 <= i && i < j && j < len(p.Location) ==> p.Location[i] != p.Location[j] && p.Location[i].ID != p.Location[j].ID
